@@ -1,12 +1,10 @@
 package main
 
-type FileSpec struct{}
 type EzSpec struct{}
 type StreamSpec struct{}
 
 func runStream(sc *Scenario, res *Result, keepLog bool) {}
-func runFile(sc *Scenario, res *Result, keepLog bool)   {}
+func runEz(sc *Scenario, res *Result, keepLog bool) {}
 
 func genStream(seed uint64, faulty bool) *Scenario { return nil }
-func genFile(seed uint64, faulty bool) *Scenario   { return nil }
 func genEz(seed uint64, faulty bool) *Scenario     { return nil }
